@@ -357,7 +357,7 @@ pub fn run_case(case: &C03Case, path: &std::path::Path, st: &mut C03Stats) -> Re
 fn shard(ctx: &ShardCtx, known: &Known) -> ShardOut {
     let mut out = ShardOut::default();
     let path = ctx.db_path("c03.db");
-    let n = ctx.tier.pick(3000, 30000);
+    let n = ctx.tier.pick(3000, 18000);
     let (steps, pages) = ctx.tier.pick((40, 20000), (120, 60000));
     let discarded = std::cell::Cell::new(0u64);
     let dumps = std::cell::Cell::new(0u64);
